@@ -35,8 +35,14 @@ def load_known():
     return out
 
 
+LAST_CHECK = None
+
+
 class Check(object):
     def __init__(self, prop, tier='quick', level='other'):
+        global LAST_CHECK
+        if LAST_CHECK is None:
+            LAST_CHECK = self     # the first Check of the process is the real one; positive-control probes are created after it
         self.prop = prop
         self.tier = tier
         self.level = level
